@@ -8,6 +8,8 @@
  *        PA <raw tree of A>  PB <raw tree of B> (hwv_ptree.h; the model computes PB from PA)
  *        allocseq <n> <size>...                 sizes requested through hwloc_tma_malloc by hwloc__topology_dup(A) (logging tma)
  *        share <field> copied= shared= mismatch= / overlap <fieldA> <fieldB>      sharing pattern of (A,B)
+ *        firstq <family>.<accessor> same|DIFF   each accessor of the lazily refreshed state (memattrs, distances, cpukinds) as the FIRST
+ *                                               query on a fresh duplicate, against the original's answer
  *        obscmp same|DIFF ...                   dump+XML+distances+memattrs+cpukinds+infos+support of B against A
  *   mut A|B <op>                   apply <op> to one topology; prints "mut ... rc= errno=" and
  *                                  "frame same|DIFF" = observation of the OTHER one before/after
@@ -19,7 +21,7 @@
  *       disthet <depth:idx,...> <kind> <seed> (matrix over mixed object types) |
  *       distrm | distrmdepth <depth> | distfail | disthandle <name> <0 report|1 transform|3 release_remove> | mreg <name> <flags> | mset <id> <numaidx> <-|set> <value> | kind <set> <eff> <name> <value>
  *       robj <depth> <idx> <flags> (restrict to that object's cpuset/nodeset) | gobj <depth> <i> <j> | kobj <depth> <idx> <eff> <name> <value>
- *       mseto <id> <numaidx> <depth> <idx> <value> | obs | (depth >= 1000: depth of type depth-1000)
+ *       mseto <id> <numaidx> <depth> <idx> <value> (cpuset initiator) | mseti ... (OBJECT initiator) | obs | (depth >= 1000: depth of type depth-1000)
  *       subtype <depth> <idx> <string|-> |
  *       infoclr <depth> <idx> | tinfoclr | kinfoclr <kind> | kinfo <kind> <name> <value> | udclr <depth> <idx>   (emptied, still allocated arrays)
  *       info <depth> <idx> <name> <value> | tinfo <name> <value> | refresh | allow <flags> | ud <depth> <idx> | tud | cb
@@ -88,6 +90,12 @@ static int apply_op(hwloc_topology_t t, char *op, int *handled)
     hwloc_obj_t node = hwloc_get_obj_by_type(t, HWLOC_OBJ_NUMANODE, u2), io = objat(t, d, (unsigned)kind); struct hwloc_location loc;
     if (!node || !io || !io->cpuset) { errno = ENOENT; return -2; }
     loc.type = HWLOC_LOCATION_TYPE_CPUSET; loc.location.cpuset = io->cpuset;
+    return hwloc_memattr_set_value(t, u, node, &loc, 0, (hwloc_uint64_t)ll);
+  }
+  if (sscanf(op, "mseti %u %u %d %lu %lld", &u, &u2, &d, &kind, &ll) == 5) {   /* initiator = the OBJECT (depth d, index kind) */
+    hwloc_obj_t node = hwloc_get_obj_by_type(t, HWLOC_OBJ_NUMANODE, u2), io = objat(t, d, (unsigned)kind); struct hwloc_location loc;
+    if (!node || !io) { errno = ENOENT; return -2; }
+    loc.type = HWLOC_LOCATION_TYPE_OBJECT; loc.location.object = io;
     return hwloc_memattr_set_value(t, u, node, &loc, 0, (hwloc_uint64_t)ll);
   }
   if (!strcmp(op, "obs")) { char *o = hwv_observe_str(t, 1); free(o); return 0; }
@@ -234,6 +242,129 @@ static void print_uninit(hwloc_topology_t A)
   if (Y) hwloc_topology_destroy(Y);
 }
 
+/* ---- order-independent observation of the lazily refreshed state: each accessor is the FIRST query on a fresh duplicate */
+struct cand { int isobj; hwloc_bitmap_t cs; int depth; unsigned lidx; };
+static unsigned collect_cands(hwloc_topology_t A, struct cand *c, unsigned max)
+{
+  unsigned n = 0, id, j, k, m;
+  for (id = 0; ; id++) {
+    const char *nm; unsigned ntg = 0; hwloc_obj_t tgs[32];
+    if (hwloc_memattr_get_name(A, id, &nm) < 0) break;
+    ntg = 32; if (hwloc_memattr_get_targets(A, id, NULL, 0, &ntg, tgs, NULL) < 0) continue;
+    for (j = 0; j < ntg && j < 32; j++) {
+      struct hwloc_location ins[16]; unsigned ni = 16;
+      if (hwloc_memattr_get_initiators(A, id, tgs[j], 0, &ni, ins, NULL) < 0) continue;
+      for (k = 0; k < ni && k < 16 && n < max; k++) {
+        struct cand x; memset(&x, 0, sizeof x);
+        if (ins[k].type == HWLOC_LOCATION_TYPE_OBJECT) { if (!ins[k].location.object) continue; x.isobj = 1; x.depth = ins[k].location.object->depth; x.lidx = ins[k].location.object->logical_index; }
+        else x.cs = hwloc_bitmap_dup(ins[k].location.cpuset);
+        for (m = 0; m < n; m++) if (c[m].isobj == x.isobj && (x.isobj ? (c[m].depth == x.depth && c[m].lidx == x.lidx) : hwloc_bitmap_isequal(c[m].cs, x.cs))) break;
+        if (m == n) c[n++] = x; else if (x.cs) hwloc_bitmap_free(x.cs);
+      }
+    }
+  }
+  /* two more that were never registered */
+  if (n < max) { c[n].isobj = 1; c[n].cs = NULL; c[n].depth = 0; c[n].lidx = 0; n++; }
+  if (n < max) { c[n].isobj = 0; c[n].cs = hwloc_bitmap_dup(hwloc_get_root_obj(A)->cpuset); c[n].depth = 0; c[n].lidx = 0; n++; }
+  return n;
+}
+static int cand_loc(hwloc_topology_t t, struct cand *c, struct hwloc_location *loc)
+{
+  if (c->isobj) { loc->type = HWLOC_LOCATION_TYPE_OBJECT; loc->location.object = hwloc_get_obj_by_depth(t, c->depth, c->lidx); return loc->location.object ? 0 : -1; }
+  loc->type = HWLOC_LOCATION_TYPE_CPUSET; loc->location.cpuset = c->cs; return 0;
+}
+static void p_obj(FILE *f, hwloc_obj_t o) { if (!o) fputs("NULL", f); else fprintf(f, "%d:%u", (int)o->type, o->logical_index); }
+static void p_loc(FILE *f, struct hwloc_location *l) { if (l->type == HWLOC_LOCATION_TYPE_OBJECT) { fputs("o:", f); p_obj(f, l->location.object); } else { fputs("c:", f); hwv_pset(f, l->location.cpuset); } }
+static void q_memattr(FILE *f, hwloc_topology_t t, int acc, struct cand *c, unsigned nc)
+{
+  unsigned id, k, j; hwloc_obj_t node;
+  for (id = 0; ; id++) {
+    const char *nm;
+    if (hwloc_memattr_get_name(t, id, &nm) < 0) break;
+    fprintf(f, "attr %u:", id);
+    if (acc == 0) {
+      for (node = NULL; (node = hwloc_get_next_obj_by_type(t, HWLOC_OBJ_NUMANODE, node)) != NULL; ) {
+        struct hwloc_location loc; hwloc_uint64_t v = 0; int rc; memset(&loc, 0, sizeof loc); errno = 0;
+        rc = hwloc_memattr_get_best_initiator(t, id, node, 0, &loc, &v);
+        fprintf(f, " [%u rc=%d", node->logical_index, rc); if (!rc) { fputc(' ', f); p_loc(f, &loc); fprintf(f, "=%llu", (unsigned long long)v); } else fprintf(f, " %s", hwv_errno_class(errno)); fputc(']', f);
+      }
+    } else if (acc == 1) {
+      for (k = 0; k <= nc; k++) {
+        struct hwloc_location loc; hwloc_obj_t best = NULL; hwloc_uint64_t v = 0; int rc; errno = 0;
+        if (k < nc && cand_loc(t, &c[k], &loc) < 0) continue;
+        rc = hwloc_memattr_get_best_target(t, id, k < nc ? &loc : NULL, 0, &best, &v);
+        fprintf(f, " [i%u rc=%d ", k, rc); if (!rc) { p_obj(f, best); fprintf(f, "=%llu", (unsigned long long)v); } else fputs(hwv_errno_class(errno), f); fputc(']', f);
+      }
+    } else if (acc == 2) {
+      for (node = NULL; (node = hwloc_get_next_obj_by_type(t, HWLOC_OBJ_NUMANODE, node)) != NULL; )
+        for (k = 0; k <= nc; k++) {
+          struct hwloc_location loc; hwloc_uint64_t v = 0; int rc; errno = 0;
+          if (k < nc && cand_loc(t, &c[k], &loc) < 0) continue;
+          rc = hwloc_memattr_get_value(t, id, node, k < nc ? &loc : NULL, 0, &v);
+          if (!rc) fprintf(f, " [%u i%u =%llu]", node->logical_index, k, (unsigned long long)v);
+        }
+    } else if (acc == 3) {
+      for (k = 0; k <= nc; k++) {
+        struct hwloc_location loc; hwloc_obj_t tg[32]; hwloc_uint64_t vs[32]; unsigned n = 32; int rc;
+        if (k < nc && cand_loc(t, &c[k], &loc) < 0) continue;
+        rc = hwloc_memattr_get_targets(t, id, k < nc ? &loc : NULL, 0, &n, tg, vs);
+        fprintf(f, " [i%u rc=%d n=%u", k, rc, rc ? 0 : n); for (j = 0; !rc && j < n && j < 32; j++) { fputc(' ', f); p_obj(f, tg[j]); fprintf(f, "=%llu", (unsigned long long)vs[j]); } fputc(']', f);
+      }
+    } else {
+      for (node = NULL; (node = hwloc_get_next_obj_by_type(t, HWLOC_OBJ_NUMANODE, node)) != NULL; ) {
+        struct hwloc_location ins[32]; hwloc_uint64_t vs[32]; unsigned n = 32; int rc = hwloc_memattr_get_initiators(t, id, node, 0, &n, ins, vs);
+        fprintf(f, " [%u rc=%d n=%u", node->logical_index, rc, rc ? 0 : n); for (j = 0; !rc && j < n && j < 32; j++) { fputc(' ', f); p_loc(f, &ins[j]); fprintf(f, "=%llu", (unsigned long long)vs[j]); } fputc(']', f);
+      }
+    }
+    fputc('\n', f);
+  }
+}
+static void p_dist(FILE *f, hwloc_topology_t t, struct hwloc_distances_s *d)
+{
+  unsigned j; const char *nm = hwloc_distances_get_name(t, d);
+  fprintf(f, " {%s kind=%lu n=%u:", nm ? nm : "(null)", d->kind, d->nbobjs);
+  for (j = 0; j < d->nbobjs; j++) { fputc(' ', f); p_obj(f, d->objs[j]); }
+  for (j = 0; j < d->nbobjs * d->nbobjs; j++) fprintf(f, " %llu", (unsigned long long)d->values[j]);
+  fputc('}', f);
+}
+static void q_distances(FILE *f, hwloc_topology_t t, int acc, char names[][40], unsigned nnames)
+{
+  struct hwloc_distances_s *ds[32]; unsigned n, i, k; int d;
+  if (acc == 0) { n = 32; if (!hwloc_distances_get(t, &n, ds, 0, 0)) for (i = 0; i < n && i < 32; i++) { p_dist(f, t, ds[i]); hwloc_distances_release(t, ds[i]); } }
+  else if (acc == 1) { for (d = -8; d < hwloc_topology_get_depth(t); d++) { n = 32; if (!hwloc_distances_get_by_depth(t, d, &n, ds, 0, 0) && n) { fprintf(f, " depth%d:", d); for (i = 0; i < n && i < 32; i++) { p_dist(f, t, ds[i]); hwloc_distances_release(t, ds[i]); } } } }
+  else if (acc == 2) { for (k = 0; k < nnames; k++) { n = 32; if (!hwloc_distances_get_by_name(t, names[k], &n, ds, 0)) { fprintf(f, " %s:", names[k]); for (i = 0; i < n && i < 32; i++) { p_dist(f, t, ds[i]); hwloc_distances_release(t, ds[i]); } } } }
+  else { for (k = 0; k < HWLOC_OBJ_TYPE_MAX; k++) { n = 32; if (!hwloc_distances_get_by_type(t, (hwloc_obj_type_t)k, &n, ds, 0, 0) && n) { fprintf(f, " type%u:", k); for (i = 0; i < n && i < 32; i++) { p_dist(f, t, ds[i]); hwloc_distances_release(t, ds[i]); } } } }
+  fputc('\n', f);
+}
+static void q_cpukinds(FILE *f, hwloc_topology_t t, int acc)
+{
+  hwloc_obj_t pu; int k, nk;
+  if (acc == 0) fprintf(f, " nr=%d", hwloc_cpukinds_get_nr(t, 0));
+  else if (acc == 1) { for (pu = NULL; (pu = hwloc_get_next_obj_by_type(t, HWLOC_OBJ_PU, pu)) != NULL; ) fprintf(f, " %u:%d", pu->logical_index, hwloc_cpukinds_get_by_cpuset(t, pu->cpuset, 0)); }
+  else { nk = hwloc_cpukinds_get_nr(t, 0); for (k = 0; k < nk; k++) { hwloc_bitmap_t cs = hwloc_bitmap_alloc(); int eff = 0; struct hwloc_infos_s *in = NULL; int rc = hwloc_cpukinds_get_info(t, (unsigned)k, cs, &eff, &in, 0); fprintf(f, " [%d rc=%d eff=%d n=%u ", k, rc, eff, in ? in->count : 0); hwv_pset(f, cs); fputc(']', f); hwloc_bitmap_free(cs); } }
+  fputc('\n', f);
+}
+static void print_firstq(hwloc_topology_t A)
+{
+  struct cand c[16]; unsigned nc = collect_cands(A, c, 16), i; int fam, acc; char names[8][40]; unsigned nnames = 0;
+  static const char *mn[] = { "best_initiator", "best_target", "get_value", "get_targets", "get_initiators" }, *dn[] = { "get", "get_by_depth", "get_by_name", "get_by_type" }, *kn[] = { "get_nr", "get_by_cpuset", "get_info" };
+  { struct hwloc_distances_s *ds[8]; unsigned n = 8; if (!hwloc_distances_get(A, &n, ds, 0, 0)) for (i = 0; i < n && i < 8; i++) { const char *nm = hwloc_distances_get_name(A, ds[i]); snprintf(names[nnames++], 40, "%s", nm ? nm : "-"); hwloc_distances_release(A, ds[i]); } }
+  for (fam = 0; fam < 3; fam++) for (acc = 0; acc < (fam == 0 ? 5 : fam == 1 ? 4 : 3); acc++) {
+    hwloc_topology_t D = NULL; char *ba = NULL, *bd = NULL; size_t la = 0, ld = 0; FILE *fa, *fd; const char *nm = fam == 0 ? mn[acc] : fam == 1 ? dn[acc] : kn[acc];
+    if (hwloc_topology_dup(&D, A) < 0) { printf("firstq %s dup-failed\n", nm); continue; }
+    fd = open_memstream(&bd, &ld); fa = open_memstream(&ba, &la);
+    /* the copy first: its caches are in the state the dup left them */
+    if (fam == 0) { q_memattr(fd, D, acc, c, nc); q_memattr(fa, A, acc, c, nc); }
+    else if (fam == 1) { q_distances(fd, D, acc, names, nnames); q_distances(fa, A, acc, names, nnames); }
+    else { q_cpukinds(fd, D, acc); q_cpukinds(fa, A, acc); }
+    fclose(fd); fclose(fa);
+    if (!strcmp(ba, bd)) printf("firstq %s.%s same\n", fam == 0 ? "memattr" : fam == 1 ? "distances" : "cpukinds", nm);
+    else { printf("firstq %s.%s DIFF", fam == 0 ? "memattr" : fam == 1 ? "distances" : "cpukinds", nm); hwv_first_diff(stdout, ba, bd); fputc('\n', stdout); }
+    free(ba); free(bd); hwloc_topology_destroy(D);
+  }
+  for (i = 0; i < nc; i++) if (c[i].cs) hwloc_bitmap_free(c[i].cs);
+}
+
 static void print_obscmp(hwloc_topology_t a, hwloc_topology_t b)
 {
   char *oa = hwv_observe_str(a, 1), *ob = hwv_observe_str(b, 1);
@@ -270,6 +401,7 @@ static void do_dup(hwloc_topology_t A, hwloc_topology_t *Bp)
     free(log.sizes); free(log.ptrs);
   }
   print_uninit(A);
+  print_firstq(A);
   print_obscmp(A, *Bp);
 }
 
@@ -336,6 +468,8 @@ int main(void)
         free(after);
       }
       free(before);
+    } else if (A && hwv_config_support_line(A, line)) {
+      ;
     } else if (A) {
       int r = hwv_config_line(A, line);
       if (r == 0) printf("unknown-command %s\n", line);
